@@ -192,7 +192,9 @@ def _hostmaskPatternEqual(pattern, hostmask):
             else:
                 fd.write(re.escape(c))
         fd.write('$')
-        f = re.compile(fd.getvalue(), re.I).match
+        # re.A: only ASCII letters are case-insensitive on IRC; without it
+        # 'k' would also match U+212A (KELVIN SIGN), 's' U+017F, 'i' U+0130...
+        f = re.compile(fd.getvalue(), re.I | re.A).match
         _patternCache[pattern] = f
         return f(hostmask) is not None
 
